@@ -264,7 +264,7 @@ def main():
     na = [{'property_id': pid, 'reason': NOT_BUILT} for pid in ALL if pid not in CHECKS]
     m = {
         'version': 1,
-        'setup_cmd': 'cd lean && lake build TddaVerif tddadriver',
+        'setup_cmd': '(/venv/bin/python harness/translate.py || true) && cd lean && lake build tddadriver',
         'hooks': {
             'guard': 'TDDA_VERIF',
             'enable': 'no source hooks are needed: every observable the properties name is reachable through the public API; checks import /repo\'s working tree in-process (PYTHONPATH=/repo) and set TDDA_VERIF=1',
